@@ -22,7 +22,7 @@ class Obligation:
 
     def check(self, both=False):
         if self.kind == 'cover':
-            v = smt.check_sat(self.hyps)
+            v = smt.check_sat_both(self.hyps)
             self.verdict = v
             self.status = 'discharged' if v.status == 'sat' else ('failed' if v.status == 'unsat' else 'undecided')
             return self
@@ -33,6 +33,7 @@ class Obligation:
         self.verdict = v
         if self.kind == 'canary':
             self.status = 'discharged' if v.status == 'sat' else ('failed' if v.status == 'unsat' else 'undecided')
+        # kind 'bounded' is decided like 'proof' but reported separately
         else:
             self.status = 'discharged' if v.status == 'unsat' else ('failed' if v.status == 'sat' else 'undecided')
         return self
@@ -56,6 +57,9 @@ class VC:
         self.trusted = set()
         self.cur_fn = None
         self.path_count = 0
+        self.bounded_label = None    # set while exploring a structure-bounded (unrolled) harness: obligations are
+                                     # then labelled `bounded` and never counted as proved
+        self.bounded_notes = []
 
     def under_contract(self, relpath, qualpath):
         seg, l0, l1, sha = loader.function_segment(relpath, qualpath)
@@ -64,6 +68,8 @@ class VC:
         return key
 
     def add(self, name, hyps, goal, kind='proof', path=None, info=None):
+        if self.bounded_label and kind == 'proof':
+            kind = 'bounded'
         o = Obligation('%s.%s' % (self.prop, name), hyps, goal, kind, fn=self.cur_fn, path=path, info=info)
         self.obligations.append(o)
         return o
@@ -92,7 +98,8 @@ class VC:
             tag = 'p' + '.'.join(str(d) for d in p.trail) if p.trail else 'p'
             for e in p.events:
                 if e.kind == 'Check':
-                    self.add('%s.%s[%s]' % (short(fnkey), e.name, tag), e.hyps, e.formula, path=p, info=e.info)
+                    self.add('%s.%s[%s]' % (short(fnkey), e.name, tag), e.hyps, e.formula, path=p, info=e.info,
+                             kind='bounded' if (self.bounded_label or e.info.get('bounded')) else 'proof')
                 elif e.kind == 'InvCheck':
                     self.add('%s.%s.inv-%s[%s]' % (short(fnkey), e.label.split('#')[-1], e.when, tag), e.hyps, e.formula,
                              path=p)
